@@ -157,7 +157,7 @@ int main(int argc, char** argv) {
   const bool th = args.thorough();
   oracle_selfcheck();
   ctx.name_metric(0, "worst_error_over_bound"); ctx.name_metric(1, "table_induced_operator_error_frobenius_relative"); ctx.name_metric(2, "impulses");
-  const uint64_t mmax = th ? 65536 : 4096, all_imp = th ? 16384 : 1024;
+  const uint64_t mmax = 65536, all_imp = th ? 16384 : 1024;  // quick: every m up to 65536 too, complete impulse bases up to m = 1024, sampled impulses above
   struct It { int kind; uint64_t m; int impl; uint64_t k0, k1; CpuCfg cfg; };
   std::vector<It> items;
   for (uint64_t m = mmax; m >= 1; m /= 2) {
